@@ -99,3 +99,12 @@ Theorem C08_int_enum_objects_inhabited :
     map (fun kv => Valid.valid (fun _ _ => true) [] 4 ex_ie_obj (JObj kv)) ex_ie_docs = [true; false; true; false; false].
 Proof. exact int_enum_objects_inhabited. Qed.
 Print Assumptions C08_int_enum_objects_inhabited.
+
+(* and at any depth: the integer enum is one of the leaves of C02_nested_objects_exact; instance one level down *)
+Theorem C08_int_enum_nested_inhabited :
+  exists t b, Gen.gen (fun s => s) (mkCfg false false) [] (fuelG 1 2) MDeclared None false ex_ie_outer [82]%N = Done (t, b) /\
+    (forall kv, In kv ex_ie_nested_docs ->
+       is_ok (Exec.dec (fun _ _ => true) [] (fuelD 1 0) t (JObj kv)) = Valid.valid (fun _ _ => true) [] (fuelV 1 0) ex_ie_outer (JObj kv)) /\
+    map (fun kv => Valid.valid (fun _ _ => true) [] (fuelV 1 0) ex_ie_outer (JObj kv)) ex_ie_nested_docs = [true; false; true; false; true].
+Proof. exact int_enum_nested_inhabited. Qed.
+Print Assumptions C08_int_enum_nested_inhabited.
